@@ -88,7 +88,7 @@ func runKeygenIssue(m *mon.M, pool map[string]*poolKey, cas []*caVariant, w *wor
 			usable = append(usable, c)
 		}
 	}
-	m.Cases("keygen-issue", m.N(160, 3000), func(i int64, r *rand.Rand) {
+	m.Cases("keygen-issue", m.N(96, 3000), func(i int64, r *rand.Rand) {
 		ca := mon.Pick(r, usable)
 		subj := subjectOf(r, pool)
 		d := &cr.Cert{Type: cr.UserCert, KeyID: printableID(r)}
@@ -215,7 +215,7 @@ func expectPrinted(o cr.Opt, critical bool) [2]string {
 }
 
 func runKeygenPrint(m *mon.M, pool map[string]*poolKey, cas []*caVariant, w *work) {
-	m.Cases("keygen-print", m.N(160, 3000), func(i int64, r *rand.Rand) {
+	m.Cases("keygen-print", m.N(96, 3000), func(i int64, r *rand.Rand) {
 		ca := mon.Pick(r, cas)
 		subj := subjectOf(r, pool)
 		d := &cr.Cert{Type: uint32(1 + r.IntN(2)), KeyID: printableID(r)}
